@@ -98,10 +98,10 @@ func dropLogOnlyParams(pkgs []*packages.Package, base map[string][]byte) *inline
 	cands := map[*types.Func]*lpFunc{}
 	var jiva []*packages.Package
 	packages.Visit(pkgs, nil, func(p *packages.Package) {
-		if !isJivaPkg(p.Types) || strings.Contains(p.PkgPath, "/tests/") {
+		if !isJivaPkg(p.Types) {
 			return
 		}
-		jiva = append(jiva, p)
+		jiva = append(jiva, p) // the functional-test drivers call controller functions as well
 		fset = p.Fset
 		for _, f := range p.Syntax {
 			for _, d := range f.Decls {
